@@ -1565,10 +1565,12 @@ func (f *File) WriteTo(w io.Writer) (written int64, err error) {
 			return written, errors.New("sftp.File.WriteTo: unexpectedly closed channel")
 		}
 
-		// Because writes are serialized, this will always be the last successfully read byte.
-		f.offset = packet.off + int64(len(packet.b))
-
 		if len(packet.b) > 0 {
+			// Because writes are serialized, this will always be the last successfully read byte.
+			// (A reply without data, such as the trailing EOF, carries an offset computed as if
+			// the preceding short chunk had been full, so it must not move the offset.)
+			f.offset = packet.off + int64(len(packet.b))
+
 			n, err := w.Write(packet.b)
 			written += int64(n)
 			if err != nil {
